@@ -281,6 +281,8 @@ def src_param(p):
         return "%s: []%s" % (name, src_type(t))
     if kind == 'sliceptr':
         return "%s: &[]%s" % (name, src_type(t))
+    if kind == 'arrptr':
+        return "%s: &%s" % (name, src_type(t))
     if kind == 'structview':
         return "%s: %s" % (name, t)
     if kind == 'structptr':
